@@ -487,6 +487,12 @@ func buildSource(c Case) (*gobl.Envelope, string) {
 	}
 	env.Signatures = nil
 	env.Head.Stamps = nil
+	// every source header is labelled (tags, meta, notes): a result that took
+	// them over by reference shares them with the source, which the edits of
+	// the result then show
+	env.Head.Tags = []string{"c16-b", "c16-a"}
+	env.Head.Meta = cbc.Meta{"c16-source": "yes"}
+	env.Head.Notes = "C16 source"
 	if err := env.Validate(); err != nil {
 		return nil, "source-invalid"
 	}
@@ -1783,8 +1789,12 @@ func editResult(c Case, res, src *gobl.Envelope, before snapshot, o *vh.Obs) {
 				}
 			}
 			res.Head.Tags = append(res.Head.Tags, "c16")
+			if len(res.Head.Tags) > 1 {
+				res.Head.Tags[0], res.Head.Tags[1] = res.Head.Tags[1], res.Head.Tags[0] // in place
+			}
 			if res.Head.Meta != nil {
 				res.Head.Meta["c16"] = "edited"
+				res.Head.Meta["c16-source"] = "no longer"
 			}
 		case "scribble":
 			var rb snapshot
@@ -2309,7 +2319,7 @@ func init() {
 			"(2) refusal model from data/regimes + data/addons `corrections` (types/extensions/stamps concatenated regime then addons, reason_required OR-ed): refused iff type missing, source without code, a required stamp missing, types defined and the type not among them, reason required and empty, or the edited source does not calculate; CLI/bulk/exec additionally iff the expected result does not validate. The code must refuse exactly then. "+
 			"(3) on success: new head.uuid, no sigs, no header stamps, digest matches the document, doc.code absent, new doc.uuid, doc.type = requested, exactly one preceding = {uuid,type,series,code,issue_date of the source, reason, ext as requested, the required stamps, tax iff copy_tax}, issue_date = requested or today (window sampled once at start-up), and the whole document equals the source JSON edited accordingly and calculated independently. "+
 			"(4) replica: no code, value_date, op_date; new uuids; no sigs/stamps; issue_date today; rest equals the recalculated source. "+
-			"Non-trivial: the regime/addons publish a correction definition and the option vector is not the all-valid default (first allowed type, a reason, nothing else, all required stamps in the header); replicas: the source is signed or stamped or carries a value_date / op_date or its own totals.rounding (an input among the totals, which the replica and the correction keep).",
+			"Every source header carries tags, meta and notes (a result that took them over by reference would share them with the source; the edits of the result write into them). Non-trivial: the regime/addons publish a correction definition and the option vector is not the all-valid default (first allowed type, a reason, nothing else, all required stamps in the header); replicas: the source is signed or stamped or carries a value_date / op_date or its own totals.rounding (an input among the totals, which the replica and the correction keep).",
 		"data/regimes/*.json and data/addons/*.json in the tree under test are the referee for what a regime requires; the Go tables are only observed",
 		"extension keys a definition does not offer are not refused by Correct (CorrectionDefinition.Extensions: 'keys that can be included'; nothing in the code or its tests rejects others): the ext must be carried as requested, and only the validating command line paths refuse undefined keys / unpublished codes",
 		"a document without any published correction definition (no regime) accepts any non-empty type in the library (no table to check against); only the validating paths refuse undefined types",
